@@ -679,6 +679,31 @@ pub enum Handles {
     /// per child: a ping handle or the raw eventfd
     Comp { pokes: Vec<(Option<Ping>, Option<OwnedRaw>)> },
     Exec { sched: Vec<calloop::futures::Scheduler<u32>> },
+    Stream { st: Rc<StreamShared> },
+}
+
+/// State shared between a harness-fed stream and the history.
+pub struct StreamShared {
+    q: RefCell<std::collections::VecDeque<u8>>,
+    ended: Cell<bool>,
+    waker: RefCell<Option<std::task::Waker>>,
+}
+
+pub struct HistStream(Rc<StreamShared>, SrcId, Sh);
+
+impl futures::Stream for HistStream {
+    type Item = u8;
+    fn poll_next(self: std::pin::Pin<&mut Self>, cx: &mut std::task::Context<'_>) -> std::task::Poll<Option<u8>> {
+        self.2.push(Ev::StreamPoll { src: self.1 });
+        *self.0.waker.borrow_mut() = Some(cx.waker().clone());
+        if let Some(v) = self.0.q.borrow_mut().pop_front() {
+            return std::task::Poll::Ready(Some(v));
+        }
+        if self.0.ended.get() {
+            return std::task::Poll::Ready(None);
+        }
+        std::task::Poll::Pending
+    }
 }
 
 /// Scripted future of the history machine: stays Pending `pendings` times (optionally waking itself), then
@@ -778,7 +803,7 @@ pub struct Ctx {
     pub idles: Vec<WIdle>,
     pub cur_idle: Option<IdleId>,
     pub depth: u32,
-    pub by_kind: [Vec<SrcId>; 8],
+    pub by_kind: [Vec<SrcId>; 9],
     pub poisoned: bool,
     pub epfd: RawFd,
     pub opts: Opts,
@@ -799,6 +824,7 @@ const K_EXEC: usize = 4;
 const K_PROBE: usize = 5;
 const K_GEN_BAD: usize = 6;
 const K_COMP: usize = 7;
+const K_STREAM: usize = 8;
 
 fn interest_of(i: u8) -> Interest {
     match i & 3 {
@@ -1159,6 +1185,26 @@ impl Ctx {
                     ctx.sh.forced.set(None);
                     ctx.sh.child_forced.set(Some((id, child, post)));
                     tret
+                }, via_disp);
+                if let Some(d) = self.record_insert(id, via_disp, via_disp, r) {
+                    self.srcs[id].kept = Some(Box::new(d));
+                }
+            }
+            Kind::Stream => {
+                let id = self.new_src(kind, script, K_STREAM);
+                let st = Rc::new(StreamShared { q: RefCell::new(Default::default()), ended: Cell::new(false), waker: RefCell::new(None) });
+                let src = calloop::stream::StreamSource::new(HistStream(st.clone(), id, sh.clone())).expect("StreamSource");
+                sh.push(Ev::Created { src: id, info: KInfo { kind: kind.clone(), fd: -1, deadline_ns: None, recycled_from: None, children: vec![] } });
+                let alive = self.srcs[id].alive.clone();
+                let t = Tracked::new(src, id, &sh, &alive);
+                let g = CbGuard { id, sh: sh.clone() };
+                self.srcs[id].h = Handles::Stream { st };
+                let r = self.insert_any(id, t, move |ev: Option<u8>, _: &mut (), ctx: &mut Ctx| {
+                    let _ = &g;
+                    ctx.on_cb(id, match ev {
+                        Some(v) => Payload::Item(v),
+                        None => Payload::StreamEnd,
+                    });
                 }, via_disp);
                 if let Some(d) = self.record_insert(id, via_disp, via_disp, r) {
                     self.srcs[id].kept = Some(Box::new(d));
@@ -1565,6 +1611,40 @@ impl Ctx {
                 let Some(w) = w else { return };
                 sh.push(Ev::Op(ROp::Wake { task: i }));
                 let r = catch_unwind(AssertUnwindSafe(move || w.wake()));
+                self.finish_unit(r);
+            }
+            Op::StreamPush { src, val } => {
+                let Some(i) = pick(*src, self.by_kind[K_STREAM].len()) else { return };
+                let id = self.by_kind[K_STREAM][i];
+                let Handles::Stream { st } = &self.srcs[id].h else { return };
+                if st.ended.get() || st.q.borrow().len() >= 64 {
+                    return;
+                }
+                sh.push(Ev::Op(ROp::StreamPush { src: id, val: *val }));
+                st.q.borrow_mut().push_back(*val);
+                let w = st.waker.borrow().clone();
+                let r = catch_unwind(AssertUnwindSafe(move || {
+                    if let Some(w) = w {
+                        w.wake();
+                    }
+                }));
+                self.finish_unit(r);
+            }
+            Op::StreamEnd { src } => {
+                let Some(i) = pick(*src, self.by_kind[K_STREAM].len()) else { return };
+                let id = self.by_kind[K_STREAM][i];
+                let Handles::Stream { st } = &self.srcs[id].h else { return };
+                if st.ended.get() {
+                    return;
+                }
+                sh.push(Ev::Op(ROp::StreamEnd { src: id }));
+                st.ended.set(true);
+                let w = st.waker.borrow().clone();
+                let r = catch_unwind(AssertUnwindSafe(move || {
+                    if let Some(w) = w {
+                        w.wake();
+                    }
+                }));
                 self.finish_unit(r);
             }
             Op::DropScheduler { src } => {
